@@ -88,7 +88,8 @@ Record hprog := mkH { h_muts : list mut; h_res : hres }.
 Inductive routing :=
 | R404 (partial : option hprog)            (* no route; innermost PARTIAL hook if any *)
 | R405 (allow : str)                       (* route exists, verb not allowed *)
-| ROk (rhooks : list hprog) (h : hprog).   (* SIMPLE route hooks in call order, then the handler *)
+| ROk (rhooks : list hprog) (h : hprog)    (* SIMPLE route hooks in call order, then the handler *)
+| RRaise (ejson : str).                    (* route resolution itself raised (e.g. int() on a 4301-digit wildcard) *)
 
 (* result of a custom error handler (app.error(code)) *)
 Inductive ehres := ERet (o : out) | ERaise.
@@ -588,6 +589,7 @@ Definition route_and_call (rt : routing) (st : rstate) : list event * rstate * (
   match rt with
   | R405 allow => ([EvRouted], st, inr (XHttp true (err405 allow)))
   | R404 None => ([EvRouted], st, inr (XHttp true err404))
+  | RRaise j => ([EvRouted], st, inr (XExc j))
   | R404 (Some h) => let '(st1, r) := run_prog h st in ([EvRouted; EvHandler], st1, r)
   | ROk rh h =>
       match run_hooks EvRouteHook (indexed rh) st with
@@ -911,6 +913,7 @@ Definition dec_routing (fuel : nat) (l : list Z) : option (routing * list Z) :=
                                    end
                 | None => None
                 end
+  | 3%Z :: r => match dec_str r with Some (j, r') => Some (RRaise j, r') | None => None end
   | _ => None
   end.
 
